@@ -214,8 +214,19 @@ def fmt_out(out):
                     (TOK[o[1]] if o[0] == 'E' else f'X:{o[1]}') for o in out)
 
 
+# g of the model for the three loss timings; the first two are *measured* by tools/facts/c07.py
+# on this tree (how many further magic/size errors the loop counts before the loss reaches it)
 G_OF_LOSE = {0: 0, 0.0025: 2, None: 1000000}
 _size_first = 0
+
+
+def _read_facts(facts):
+    global _size_first
+    facts = facts or {}
+    _size_first = 1 if facts.get('size_first') else 0
+    G_OF_LOSE[0] = facts.get('g_soon', 0)
+    G_OF_LOSE[0.0025] = facts.get('g_late', 2)
+    G_OF_LOSE[None] = facts.get('g_never', 1000000)
 
 
 def model_line(case, fed=None):
@@ -371,8 +382,7 @@ def run_impl(ctx, cases):
 def evaluate(ctx, cases, res):
     if not cases:
         return []
-    global _size_first
-    _size_first = 1 if (ctx.facts or {}).get('size_first') else 0
+    _read_facts(ctx.facts)
     outs = run_impl(ctx, cases)
     model = ctx.model([model_line(c, o.get('fed') if isinstance(o, dict) else None)
                        for c, o in zip(cases, outs)])
